@@ -108,17 +108,24 @@ pub fn agent_script<W: Write>(w: &mut W, st: &mut EStats, id: u64, g: &mut Sm, m
     let mut rng = CountRng { inner: Xoroshiro128StarStar::seed_from_u64(seed), n: 0 };
     let mut buf: Vec<u8> = Vec::new();
     let mut local = EStats::new();
+    // a quarter of the free-running scripts contain a no-trading period (from the start, with crossed
+    // starting quotes, or switched on and off along the way): the agents then look at crossed books
+    let off_mode = quotes.is_none() && g.chance(1, 4);
+    let trading0 = !(off_mode && g.chance(1, 2));
+    let (off_at, on_at) = if off_mode && trading0 { let a = 1 + g.below(1 + steps as u64 / 2) as usize; (a, a + 1 + g.below(1 + steps as u64 / 2) as usize) } else { (usize::MAX, if off_mode && g.chance(1, 2) { 1 + g.below(1 + steps as u64) as usize } else { usize::MAX }) };
     let mut tenv; let mut tmenv;
     let t: &mut dyn Target = if market {
-        tmenv = TMEnv::<2, 10>(MarketEnv::<2, 10>::new(t0, [ticks[0], ticks[1]], step, true)); &mut tmenv
+        tmenv = TMEnv::<2, 10>(MarketEnv::<2, 10>::new(t0, [ticks[0], ticks[1]], step, trading0)); &mut tmenv
     } else {
-        tenv = TEnv::<10>(Env::<10>::new(t0, ticks[0], step, true)); &mut tenv
+        tenv = TEnv::<10>(Env::<10>::new(t0, ticks[0], step, trading0)); &mut tenv
     };
     {
         // the script body is buffered: the oracle table has to precede it
-        let mut run = ERun::begin(&mut buf, &mut local, id, t, 10, seed, t0, step, true, &ticks, &rng);
+        let mut run = ERun::begin(&mut buf, &mut local, id, t, 10, seed, t0, step, trading0, &ticks, &rng);
         for s in 0..steps {
             if run.dead { break; }
+            if s == off_at { run.op(t, &mut rng, &EOp::Disable); }
+            if s == on_at { run.op(t, &mut rng, &EOp::Enable); }
             if let Some(path) = quotes {
                 // harness-controlled quotes around the imposed mid-price (trader 999), replacing the previous ones
                 let mid = path[s.min(path.len() - 1)];
@@ -135,9 +142,10 @@ pub fn agent_script<W: Write>(w: &mut W, st: &mut EStats, id: u64, g: &mut Sm, m
                 }
                 run.op(t, &mut rng, &EOp::Step);
             } else if s == 0 && g.chance(2, 3) {
+                let (pb, pa) = if !trading0 && g.chance(2, 3) { (27, 20) } else { (20, 24) };   // crossed while nothing can trade
                 for a in 0..assets {
-                    if g.chance(3, 4) { run.op(t, &mut rng, &EOp::Place { a, bid: true, vol: 50, trader: 999, price: Some(20 * ticks[a]) }); }
-                    if g.chance(3, 4) { run.op(t, &mut rng, &EOp::Place { a, bid: false, vol: 50, trader: 999, price: Some(24 * ticks[a]) }); }
+                    if g.chance(3, 4) { run.op(t, &mut rng, &EOp::Place { a, bid: true, vol: 50, trader: 999, price: Some(pb * ticks[a]) }); }
+                    if g.chance(3, 4) { run.op(t, &mut rng, &EOp::Place { a, bid: false, vol: 50, trader: 999, price: Some(pa * ticks[a]) }); }
                 }
                 run.op(t, &mut rng, &EOp::Step);
             }
